@@ -18,11 +18,15 @@ META = {
             "explicit pointers: the index invariant is preserved by every operation and excludes every panic; reads return the "
             "latest surviving write; rollback to any still-valid revision restores the log exactly, for every nesting; export is "
             "sorted, duplicate free, independent of map iteration order and a function of the surviving writes only; a block-level "
-            "revert restores accounts and every staged storage and drops storages staged later.  The statement with Update between "
+            "revert after any disciplined span (nested block and contract snapshots) never panics and restores accounts and every "
+            "staged storage and drops storages staged later; every non-panicking operation, Update and Commit included, keeps the "
+            "block-level invariant.  The statement with Update between "
             "snapshot and revert is refuted (kept as _refuted, reproduced on the code each run as a known finding).  The model is "
             "tied to /repo on every run: the real packages and the model are run on the same traces (exhaustive short sequences + "
             "random long ones) and every account, handle read, cached storage (revision, export(), index stacks, root) and the state "
-            "root are compared after every operation.",
+            "root are compared after every operation; direct predicates on the implementation alone: revert restores, reverted "
+            "writes do not reach root or persisted data (run with vs without the reverted spans), account and storage reads equal "
+            "the latest non-reverted write of an explicit frame stack.",
     "note": "Trusted: Coq kernel/vm_compute; trace generator and engine (harness/engines/statebuf); the tries are finite maps "
             "(root = injective function of the map: C10, SHA-256 collision freedom); value bytes abstracted to ids; handles are not "
             "held across block snapshots in the disciplined theorems (the node's executor snapshots before opening anything); "
